@@ -109,6 +109,40 @@ def build_grid():
 def prepare(tier):
     global GRID
     GRID = build_grid()
+    # the enumeration itself must not silently shrink (a recorder that swallows an exception would leave fewer presets to run)
+    presets, shipped = GRID
+    kinds = {k: sum(1 for p in presets if p.startswith(k + ":")) for k in ("yaml", "ms", "var")}
+    if kinds["yaml"] < 13 or kinds["ms"] < 32 or kinds["var"] < 90 or len(shipped) < 30:
+        raise RuntimeError("preset enumeration shrank: %r, %d shipped (country, preset) pairs" % (kinds, len(shipped)))
+
+
+class Canary:
+    """'with all of the model's built-in validation checks passing' presupposes that they ran: count the calls of the validator's entry
+    point and of the solver wrapper (which asserts the solver status) during a cell; the per-constraint re-check is switched off in the model itself"""
+    NAMES = (("src.optimizer.validate_results", "Validator", "validate_results"),
+             ("src.optimizer.optimizer", "Optimizer", "run_optimizations_on_constraints"))
+
+    def __enter__(self):
+        import importlib
+        self.calls, self.saved = {}, []
+        for mod, cls, fn in self.NAMES:
+            klass = getattr(importlib.import_module(mod), cls)
+            orig = getattr(klass, fn)
+            self.saved.append((klass, fn, orig))
+            self.calls[fn] = 0
+
+            def make(orig=orig, fn=fn):
+                def w(*a, **k):
+                    self.calls[fn] += 1
+                    return orig(*a, **k)
+                return w
+            setattr(klass, fn, make())
+        return self
+
+    def __exit__(self, *exc):
+        for klass, fn, orig in self.saved:
+            setattr(klass, fn, orig)
+        return False
 
 
 def run_cell(ctx, iso3, pid, options):
@@ -116,7 +150,13 @@ def run_cell(ctx, iso3, pid, options):
     key = "%s|%s" % (iso3, pid)
     o = copy.deepcopy(options)
     snap = copy.deepcopy(o)
-    r = model.run_case("WOR" if o.get("scale") == "global" else iso3, o, title="c16_%d" % ctx.shard, capture=False)
+    with Canary() as canary:
+        r = model.run_case("WOR" if o.get("scale") == "global" else iso3, o, title="c16_%d" % ctx.shard, capture=False, share_options=True)
+    if r["ok"]:
+        idle = [fn for fn, n in canary.calls.items() if n == 0]
+        if idle:
+            ctx.fail("run-completes-without-running-its-validation:" + ",".join(idle), "%s under %s: never called: %s" % (iso3, pid, idle),
+                     dict(kind="cell", iso3=iso3, preset=pid, options=options))
     ctx.event("preset_" + pid.split(":")[0])
     if o != snap:
         ctx.fail("preset-dictionary-modified-by-the-run", key, dict(kind="cell", iso3=iso3, preset=pid, options=options))
